@@ -20,6 +20,7 @@ pub mod worker;
 pub mod rxo;
 pub mod matched;
 pub mod api;
+pub mod waitset;
 
 #[derive(Clone, Debug, Serialize, Deserialize, PartialEq)]
 pub struct Violation {
@@ -75,6 +76,7 @@ pub fn all() -> Vec<ScenarioDef> {
     v.extend(rxo::defs());
     v.extend(matched::defs());
     v.extend(api::defs());
+    v.extend(waitset::defs());
     v
 }
 
